@@ -62,6 +62,40 @@ func H_C18_ReadOnly() {
 		}
 	}
 
+	if !vrt.Symbolic() {
+		// natively, whatever the vector says: two records larger than every pool bucket (768 KiB) read at random
+		// access by several goroutines at once
+		lp := fs.Path("large.rio")
+		lw, err := recordio.NewFileWriter(recordio.Path(lp), recordio.CompressionType(recordio.CompressionTypeNone))
+		vrt.Assert(err == nil && lw.Open() == nil, "readonly/large-writer-open")
+		big := [2][]byte{make([]byte, 768<<10), make([]byte, 768<<10)}
+		for i := range big[0] {
+			big[0][i], big[1][i] = 0xAA, 0x55
+		}
+		var loffs [2]uint64
+		for i := range big {
+			loffs[i], err = lw.Write(big[i])
+			vrt.Assert(err == nil, "readonly/large-write")
+		}
+		vrt.Assert(lw.Close() == nil, "readonly/large-writer-close")
+		lm, err := recordio.NewMemoryMappedReaderWithPath(lp)
+		vrt.Assert(err == nil && lm.Open() == nil, "readonly/mmap-open")
+		var wg sync.WaitGroup
+		for g := 0; g < 4; g++ {
+			wg.Add(1)
+			go func(g int) {
+				defer wg.Done()
+				for i := 0; i < 20; i++ {
+					got, err := lm.ReadNextAt(loffs[g%2])
+					vrt.Assert(err == nil && len(got) == len(big[g%2]) && got[0] == big[g%2][0] && got[len(got)-1] == big[g%2][0],
+						"readonly/concurrent-large-read-returns-the-single-threaded-answer")
+				}
+			}(g)
+		}
+		wg.Wait()
+		lm.Close()
+	}
+
 	which := vrt.Choose("object", 3)
 	switch which {
 	case 0, 1:
